@@ -19,6 +19,18 @@ def _unit_summary(unit, structs, reads):
                     refs.append(x["ref"]["n"])
             if refs:
                 tables[vname] = sorted(set(refs))
+    static_ids = {}
+    for vname, v in unit.vars.items():
+        if v.get("id"):
+            static_ids[v["id"]] = vname
+    for fname_, fn_ in unit.funcs.items():
+        for x in cir.walk(fn_):
+            if x.get("k") == "VarDecl" and x.get("storageClass") == "static" and x.get("id"):
+                static_ids[x["id"]] = f"{fname_}::{x.get('n')}"
+    # extern declarations in headers refer to the same object by name: map every VarDecl id seen in this TU
+    for d in unit.ir["decls"]:
+        if d.get("k") == "VarDecl" and d.get("id") and d.get("n"):
+            static_ids.setdefault(d["id"], d["n"])
     # functions passed as arguments (task functions, comparators)
     for name, fn in unit.funcs.items():
         passed = []
@@ -31,13 +43,49 @@ def _unit_summary(unit, structs, reads):
                     passed.append((cir.callee(c), i, x["ref"]["n"]))
         # indirect calls through variables/fields
         indirect = []
+        # local function-pointer variables: where their value comes from
+        fp_src = {}
+        for x in cir.walk(fn):
+            if x.get("k") == "VarDecl" and x.get("init") and "(*)" in (x.get("dt") or x.get("t") or ""):
+                fp_src.setdefault(x.get("n"), set()).add(cir.text([c_ for c_ in cir.kids(x) if c_][-1]))
+            if x.get("k") == "BinaryOperator" and x.get("op") == "=":
+                l = cir.strip(cir.kids(x)[0])
+                if l is not None and l.get("k") == "DeclRefExpr" and "(*)" in (l.get("dt") or l.get("t") or ""):
+                    fp_src.setdefault((l.get("ref") or {}).get("n"), set()).add(cir.text(cir.kids(x)[1]))
         for c in cir.calls(fn):
             if cir.callee(c) is None or (cir.callee_expr(c) is not None and cir.callee_expr(c).get("k") == "MemberExpr"
                                          and unit.ir["lang"] == "c"):
-                indirect.append((cir.text(cir.callee_expr(c)), c.get("line")))
+                t = cir.text(cir.callee_expr(c))
+                indirect.append((t, c.get("line")))
+                for src in sorted(fp_src.get(t, ())):
+                    indirect.append((src, c.get("line")))
         s[name]["passed"] = passed
         s[name]["indirect"] = indirect
         s[name]["tls"] = None
+        # writes to objects of static storage (file scope or function-local static)
+        gw = []
+        for n in cir.walk(fn):
+            k = n.get("k")
+            if (k == "BinaryOperator" and n.get("op") == "=") or k == "CompoundAssignOperator" or \
+                    (k == "UnaryOperator" and n.get("op") in ("++", "--")):
+                b = cir.strip(cir.kids(n)[0])
+                deref = False
+                while b is not None and b.get("k") in ("MemberExpr", "ArraySubscriptExpr", "UnaryOperator"):
+                    if b.get("k") == "UnaryOperator" and b.get("op") != "*":
+                        break
+                    if b.get("k") == "MemberExpr" and b.get("arrow"):
+                        deref = True
+                    if b.get("k") == "UnaryOperator":
+                        deref = True
+                    if b.get("k") == "ArraySubscriptExpr" and "*" in ((cir.strip(cir.kids(b)[0]) or {}).get("t") or "") \
+                            and "[" not in ((cir.strip(cir.kids(b)[0]) or {}).get("t") or ""):
+                        deref = True
+                    b = cir.strip(cir.kids(b)[0])
+                if b is not None and b.get("k") == "DeclRefExpr" and not deref:
+                    rid = (b.get("ref") or {}).get("id")
+                    if rid in static_ids:
+                        gw.append((static_ids[rid], n.get("line")))
+        s[name]["gwrites"] = gw
     statics = {}
     for vname, v in unit.vars.items():
         if (v.get("file") or unit.tu) == unit.tu or v.get("storageClass") != "extern":
